@@ -7,6 +7,7 @@ import (
 	"fmt"
 	"net/http"
 	"net/url"
+	"strings"
 
 	opl "github.com/ory/keto/proto/ory/keto/opl/v1alpha1"
 	rts "github.com/ory/keto/proto/ory/keto/relation_tuples/v1alpha2"
@@ -27,6 +28,7 @@ func (e *Env) Dump() (string, int) {
 	for _, q := range []string{
 		"SELECT shard_id, nid, namespace, object, relation, subject_id, subject_set_namespace, subject_set_object, subject_set_relation, commit_time FROM keto_relation_tuples ORDER BY shard_id",
 		"SELECT id, string_representation FROM keto_uuid_mappings ORDER BY id",
+		"SELECT id FROM networks ORDER BY id", // (not counted as stored rows)
 	} {
 		rows, err := e.keeper.QueryContext(context.Background(), q)
 		if err != nil {
@@ -43,7 +45,9 @@ func (e *Env) Dump() (string, int) {
 				e.T.Fatalf("dump: %v", err)
 			}
 			fmt.Fprintf(h, "%v|", vals)
-			n++
+			if !strings.Contains(q, "FROM networks") {
+				n++
+			}
 		}
 		rows.Close()
 		fmt.Fprint(h, "#")
@@ -76,6 +80,15 @@ func freshName(t *Tape, i int) string { return fmt.Sprintf("never-seen-%d-%d", i
 func GenReadReq(t *Tape, dom Domain, existing []Tuple, i int) ReadReq {
 	k := readKinds[t.Choose(len(readKinds))]
 	r := ReadReq{Kind: k, Depth: []int{0, 0, 1, 3, -1, 100000}[t.Choose(6)]}
+	// names of this request that the server has never seen; the same one may be
+	// used twice within the request (object and subject, or two entries of a batch)
+	shared := freshName(t, i)
+	fresh := func() string {
+		if t.Bool(1, 3) {
+			return shared
+		}
+		return freshName(t, i)
+	}
 	tuple := func() Tuple {
 		var x Tuple
 		if len(existing) > 0 && t.Bool(1, 2) {
@@ -84,13 +97,13 @@ func GenReadReq(t *Tape, dom Domain, existing []Tuple, i int) ReadReq {
 			x = dom.Tuple(t)
 		}
 		if t.Bool(1, 3) {
-			x.Obj = freshName(t, i)
+			x.Obj = fresh()
 		}
 		if t.Bool(1, 3) {
 			if x.Sub.Set != nil {
-				x.Sub.Set.Obj = freshName(t, i)
+				x.Sub.Set.Obj = fresh()
 			} else if !x.Sub.Nil {
-				x.Sub.ID = freshName(t, i)
+				x.Sub.ID = fresh()
 			}
 		}
 		return x
